@@ -43,6 +43,7 @@ class Result(object):
         self.violations = []        # dicts: sig, msg, case (stand-alone replayable descriptor)
         self.samples = []           # a few written-out cases
         self.notes = collections.Counter()     # observations that are not violations
+        self.hashes = set()         # digests of distinct explicit states visited (E2)
 
     def ok(self, cls, nontrivial=True, k=1):
         self.n += k
@@ -62,7 +63,7 @@ class Result(object):
         return {'n': self.n, 'nontrivial': self.nontrivial, 'classes': dict(self.classes),
                 'counters': dict(self.counters), 'violations': self.violations[:200],
                 'nviol': len(self.violations), 'samples': self.samples,
-                'notes': dict(self.notes)}
+                'notes': dict(self.notes), 'hashes': list(self.hashes)}
 
 
 def scratch():
@@ -170,6 +171,7 @@ def run(pid, tier, seed, workers=None, chunk=None):
     nviol = 0
     harness_errors = []
     ncases = 0
+    hashes = set()
     gen = _chunks(mod.cases(tier, seed), chunk)
     if workers > 1:
         ctx = mp.get_context('fork')
@@ -189,9 +191,14 @@ def run(pid, tier, seed, workers=None, chunk=None):
                 total.n += r['n']
                 total.nontrivial += r['nontrivial']
                 total.classes.update(r['classes'])
-                total.counters.update(r['counters'])
+                for ck, cv in r['counters'].items():
+                    if ck.startswith('max_'):
+                        total.counters[ck] = max(total.counters[ck], cv)
+                    else:
+                        total.counters[ck] += cv
                 total.notes.update(r['notes'])
                 nviol += r['nviol']
+                hashes.update(r.get('hashes', ()))
                 viol.extend(r['violations'])
                 for s in r['samples']:
                     total.sample(s)
@@ -266,6 +273,8 @@ def run(pid, tier, seed, workers=None, chunk=None):
     }
     for k, val in total.counters.items():
         cov[k] = val
+    if hashes:
+        cov['states'] = len(hashes)
     if mod.LEVEL == 'model_checking':
         cov.setdefault('states', 0)
         cov.setdefault('transitions', 0)
